@@ -125,9 +125,12 @@ def key_literal_rule(ctx, R):
             return None
         if e[0] == "call":
             last = e[1].rsplit("::", 1)[-1]
-            if last in ("deref", "as_str", "as_ref", "borrow", "clone", "to_string", "to_owned", "into", "from", "as_bytes") and e[2] and not e[1].startswith("serde_json"):
+            if last in ("deref", "as_str", "as_ref", "borrow", "clone", "to_string", "to_owned", "into", "from", "as_bytes",
+                        "unwrap", "expect", "unwrap_or_default", "unwrap_or_else", "unwrap_or", "branch") and e[2] and not e[1].startswith("serde_json"):
                 return origin(e[2][0], depth + 1)
             return e[1]
+        if e[0] == "deref":
+            return origin(e[1], depth + 1)
         if e[0] in ("ref", "place") and isinstance(e[1][0], int):
             ds = [d for d in b.defs().get(e[1][0], []) if d[2] != "partial"]
             if len(ds) == 1 and ds[0][2] == "call":
